@@ -10,7 +10,7 @@
 (*    module CFG, so that Deriv!IsSentence decides whether a text follows  *)
 (*    the documented syntax;                                               *)
 (*  - Print: the texts a raw definition may be written as, in several      *)
-(*    lexical styles, together with the raw definition each text denotes   *)
+(*    lexical styles (0-5), together with the raw definition each text denotes   *)
 (*    (terminal codes: explicit, character code, or free codes 256, 257,   *)
 (*    ... in order of appearance).                                         *)
 (* A text is a sequence of character codes.                                *)
@@ -146,6 +146,9 @@ TermsText(terms, style) ==
     [] style = 2 -> KW_TERM \o sp \o Join([i \in 1..Len(terms) |-> Ident(terms[i])], sp) \o <<NL>>
     [] style = 3 -> KW_TERM \o sp \o Join([i \in 1..Len(terms) |-> Ident(terms[i]) \o sp \o <<61>> \o sp \o Digits(96 + terms[i])], sp) \o <<59>> \o sp
                     \o KW_TERM \o sp \o Join([i \in 1..Len(terms) |-> Ident(terms[i]) \o <<61>> \o Digits(96 + terms[i])], sp) \o <<NL>>   \* declared twice, same codes
+    [] style = 5 -> \* free codes; every terminal declared again without a code, in reverse order ("you can declare terminal several times")
+                    KW_TERM \o sp \o Join([i \in 1..Len(terms) |-> Ident(terms[i])], sp) \o <<59, NL>>
+                    \o KW_TERM \o sp \o Join([i \in 1..Len(terms) |-> Ident(terms[Len(terms) + 1 - i])], sp) \o <<59, NL>>
     [] OTHER -> KW_TERM \o sp \o Join([i \in 1..Len(terms) |-> Ident(terms[i]) \o <<61>> \o Digits(96 + terms[i])], sp) \o <<59, NL>>
 
 (* the text of a definition in a style; style 4 puts the declarations after the rules *)
@@ -155,7 +158,7 @@ PrintDescr(terms, rules, style) ==
 
 (* the terminal declarations the text denotes: name and code *)
 DenotedTerms(terms, rules, style) ==
-  IF style = 2 THEN [i \in 1..Len(terms) |-> [n |-> terms[i], c |-> 255 + i]]      \* free codes from 256 in order of appearance
+  IF style \in {2, 5} THEN [i \in 1..Len(terms) |-> [n |-> terms[i], c |-> 255 + i]]      \* free codes from 256 in order of (first) appearance
   ELSE IF style = 1
   THEN \* only the terminals that occur in rules exist (as character constants)
        LET used == {s \in UNION {Range(rules[k].r) : k \in DOMAIN rules} : s > 0 /\ s < 10}
